@@ -36,7 +36,13 @@ class P:
         nseeds = 12 if tier == "quick" else 200
         progs = [g.program(rnd.choice([1, 2])) for _ in range(60 if tier == "quick" else 1500)]
         muts = [G.mutate_tokens(rnd, p) for p in progs]
-        pc = ["p\t%s\t\t%d" % (hx(s), nseeds) for s in PARSE_CORPUS + progs + muts]
+        # inputs that end without a newline, in the middle of a construct or of a here-document region, alone and after a
+        # parser-side error: both goroutines have something to report at the end of input
+        trunc = [p[: rnd.randint(1, len(p))] for p in progs[:30]]
+        hd = G.heredoc_truncations()
+        trunc += rnd.sample(hd, 25 if tier == "quick" else len(hd))
+        trunc += [t + x for t in ["cat <<E", "cat <<E <<F\n1\nE", "a | | cat <<E", "cat <<E | |", "if a; then cat <<E"] for x in ["", " ", " | |", "\n", "\nq"]]
+        pc = ["p\t%s\t\t%d" % (hx(s), nseeds) for s in PARSE_CORPUS + progs + muts + trunc]
         ec = ["e\t%s\t%s\t%d" % (hx(e), ",".join("%s=%s" % (hx(k), hx(v)) for k, v in vs.items()), nseeds) for e, vs in EVAL_CORPUS]
         for _ in range(60 if tier == "quick" else 2000):
             toks = [rnd.choice(["x", "y", "1", "0", "(", ")", "+", "=", "/", "++", "$", "&&", "?", ":", "08", "abc", "-"]) for _ in range(rnd.randint(1, 9))]
